@@ -27,7 +27,7 @@ type C02Cell struct {
 	prepare bool // replayonce: build the always-failing variant that writes the fail file
 }
 
-var c02Contexts = []string{"body", "action", "inv", "custom", "custom2", "customretry", "cleanup", "ccleanup", "go"}
+var c02Contexts = []string{"body", "action", "inv", "custom", "custom2", "customretry", "cleanup", "ccleanup", "go", "recovered", "recoveredaction", "recoveredcustom", "bodycs"}
 var c02Positions = []string{"first", "later", "last", "afterskips", "step", "replayonce", "replayshort", "late"}
 
 type c02 struct{}
@@ -111,6 +111,18 @@ func buildCell(cell *C02Cell, lastVal int64) (*Prog, CheckCfg) {
 		p.Body = append(p.Body, guarded([]*Stmt{{Op: "draw", Label: "c", Gen: &GenSpec{K: "custom", Body: append([]*Stmt{
 			{Op: "draw", Label: "c0", Gen: wideInt()},
 			{Op: "if", Cond: &Cond{Draw: 0, Op: "nmod", M: 3, C: 1}, Body: []*Stmt{{Op: "skip", Kind: "Skipf"}}}}, sig...)}}}))
+	case "recovered":
+		p.Body = append(p.Body, guarded([]*Stmt{{Op: "recovered", Body: sig}}), &Stmt{Op: "draw", Label: "after", Gen: &GenSpec{K: "bool"}})
+	case "recoveredaction":
+		p.Body = append(p.Body, &Stmt{Op: "repeat", HasInv: true, Actions: []*Action{
+			{Name: "a0", Body: []*Stmt{{Op: "draw", Label: "x", Gen: wideInt()}, guarded([]*Stmt{{Op: "recovered", Body: sig}})}},
+			{Name: "a1", Body: []*Stmt{{Op: "draw", Label: "y", Gen: &GenSpec{K: "bool"}}}},
+		}})
+	case "recoveredcustom":
+		p.Body = append(p.Body, guarded([]*Stmt{{Op: "draw", Label: "c", Gen: &GenSpec{K: "custom", Body: []*Stmt{
+			{Op: "draw", Label: "c0", Gen: wideInt()}, {Op: "recovered", Body: sig}, {Op: "draw", Label: "c1", Gen: &GenSpec{K: "bool"}}}}}}))
+	case "bodycs":
+		p.Body = append(p.Body, guarded(append([]*Stmt{{Op: "cleanup", Body: []*Stmt{{Op: "skip", Kind: "Skip"}}}}, sig...)))
 	case "cleanup":
 		// thenSkip: the body registers the signalling cleanup and then skips the test case
 		body := []*Stmt{{Op: "cleanup", Body: sig[:1]}}
@@ -171,6 +183,15 @@ func cellValidPos(kind, context, position string, thenSkip bool) bool {
 
 func cellValid(kind, context string, thenSkip bool) bool {
 	nonfatal := sigClass(kind) == "nonfatal"
+	switch context {
+	case "recovered", "recoveredaction", "recoveredcustom":
+		// Fatal / Fatalf / FailNow raised under a recover of the user's code, which swallows the panic that carries it
+		return sigClass(kind) == "fatal" && !thenSkip
+	case "bodycs":
+		// signalled in the body of a test case that has registered a cleanup which skips: the skip must not undo a
+		// failure that was signalled through T (a raw panic replaced by the skip is a known limit, DESIGN.md section 6)
+		return sigClass(kind) != "panic" && !thenSkip
+	}
 	if context == "go" && !nonfatal {
 		return false // fatal signals and panics on another goroutine kill the process by design
 	}
